@@ -1057,6 +1057,7 @@ class Interp:
         sub.self_attrs = self.self_attrs
         sub.events, sub.loops = self.events, self.loops
         sub._loopstack, sub._guards = self._loopstack, self._guards
+        sub._comp_stack = list(self._comp_stack)         # a helper called per element of a comprehension stays tagged as such
         sub._uid, sub._seq = self._uid, self._seq
         sub.returns, sub.notes = [], self.notes
         sub._pending_guard, sub.falls_through, sub._dirty = None, True, self._dirty
